@@ -27,7 +27,8 @@ MNEMS = ['nop', 'ldn', 'ldi', 'ldw', 'jr', 'jre', 'st', 'inc', 'mv', 'ldx', 'ldv
 def gen_program(rng):
     """logical statements: ('label', name) | ('ins', [tokens]) | ('data', [tokens])"""
     stmts = []
-    consts = {'kone': rng.randint(0, 100)}
+    # two constants whose names differ in letter case only: names are case sensitive, mnemonics and registers are not
+    consts = {'kone': rng.randint(0, 100), 'KONE': rng.randint(101, 200)}
     n = rng.randint(3, 10)
     region = 0
     norg = 0
@@ -71,7 +72,7 @@ def gen_program(rng):
         else:
             mn = rng.choice(MNEMS)
             reg = lambda: rng.choice(C10.REGS)  # noqa
-            val = lambda: rng.choice([str(rng.randint(0, 200)), 'kone', '$1f'])  # noqa
+            val = lambda: rng.choice([str(rng.randint(0, 200)), 'kone', '$1f', 'KONE', 'kone'])  # noqa
             if mn == 'nop':
                 toks = ['nop']
             elif mn == 'ldn':
